@@ -397,7 +397,7 @@ class Sweep:
                             call = f"x = unyt_array(np.array({list(vals)!r}), {ua!r}); got = x.to_value({ub!r}, {eq!r}{kws})\n"
                         else:
                             call = f"x = unyt_array(np.array({list(vals)!r}), {ua!r}); r = x.{entry}({ub!r}, {eq!r}{kws}); got = r.d\n"
-                        src += call + f"assert relerr(np.asarray(got) * {sb!r}, np.array({want_si.tolist()!r})) <= {tol!r}, ('step {i}: {entry}', got)\n"
+                        src += f"_step = 'step {i}: {entry}'\n" + call + f"assert relerr(np.asarray(got) * {sb!r}, np.array({want_si.tolist()!r})) <= {tol!r}, ('step {i}: {entry}', got)\n"
                         chk.case(f"history|{eq}|{a}->{b}|{ua}|{ub}|{i}", None)
                     env = {}
                     try:
@@ -405,8 +405,8 @@ class Sweep:
                         chk.count("history:consistent")
                     except SystemExit:
                         chk.count("history:not-covered")
-                    except AssertionError as e:
-                        step = str(e.args[0][0]) if e.args and isinstance(e.args[0], tuple) else "?"
+                    except AssertionError:
+                        step = str(env.get("_step", "?"))
                         entry = step.split(": ")[-1]
                         chk.fail(f"history|{eq}|{a}->{b}|{entry}", f"after earlier requests on the same units, {step} differs from the defining formula",
                                  {"python": snippet(covered_guard(eq, ua, ub) + src), "equivalence": eq, "units": [ua, ub]})
